@@ -1,13 +1,22 @@
 #!/bin/bash
-# usage: seedrun.sh <seeded-id e.g. C19-a> [check-prop ...]   applies the seeded patch to /repo, runs the quick checks, reverts.
+# usage: seedrun.sh <seeded-id e.g. C19-a> [check-prop ...]
+# Builds the checks against a scratch worktree of /repo HEAD with the seeded patch applied (never touches /repo
+# itself or the evidence files), runs the quick checks, removes the worktree.
 ID=$1; shift
 P=${ID%%-*}
 [ $# -gt 0 ] || set -- $P
-cd /repo && git diff --quiet || { echo "/repo not clean"; exit 9; }
-git -C /repo apply /verif/seeded/$ID/patch.diff || exit 8
+WT=/tmp/seedwt-$ID
+git -C /repo worktree remove --force $WT 2>/dev/null
+git -C /repo worktree add -q --detach $WT HEAD || exit 9
+if ! git -C $WT apply /verif/seeded/$ID/patch.diff 2>/dev/null; then
+  if ! git -C $WT apply -3 /verif/seeded/$ID/patch.diff 2>/dev/null; then
+    echo "seed $ID: patch does not apply to current HEAD"; git -C /repo worktree remove --force $WT; exit 8
+  fi
+fi
 cd /verif
 for C in "$@"; do
-  ./check $C quick > /verif/.work/seed.$ID.$C.log 2>&1; rc=$?
+  VERIF_REPO_DIR=$WT ./check $C quick > /verif/.work/seed.$ID.$C.log 2>&1; rc=$?
   echo "seed $ID check $C rc=$rc: $(grep -m2 'signature=\|INCONCLUSIVE' /verif/.work/seed.$ID.$C.log | tr '\n' ' ' | cut -c1-300)"
 done
-git -C /repo checkout -- .
+git -C /repo worktree remove --force $WT
+rm -rf /verif/.work/bin-* /verif/.work/altmod-* 2>/dev/null
